@@ -183,6 +183,48 @@ def run_query(q):
         a = mk_wfsa(q["m"], "field", True)
         mm_ = a.min
         return {"dim": mm_.dim, "values": [enc(mm_(s2py(xs))) for xs in q["xs"]]}
+    if op == "closure_nc":
+        # a NON-commutative closed semiring: languages of words of length <= L (union, truncated concatenation)
+        from genlm.grammar.linear import WeightedGraph
+        from genlm.grammar.semiring import Semiring
+
+        L = q["L"]
+
+        class Lang(Semiring):
+            def __init__(self, ws):
+                super().__init__(frozenset(w for w in ws if len(w) <= L))
+
+            def __add__(self, other):
+                return Lang(self.score | other.score)
+
+            def __mul__(self, other):
+                return Lang({u + v for u in self.score for v in other.score})
+
+            def star(self):
+                cur = Lang({""})
+                while True:
+                    nxt = Lang({""}) + self * cur
+                    if nxt.score == cur.score:
+                        return cur
+                    cur = nxt
+
+            def __hash__(self):
+                return hash(self.score)
+
+        Lang.zero = Lang(set())
+        Lang.one = Lang({""})
+        G = WeightedGraph(Lang)
+        for i, j, lab in q["edges"]:
+            G[i, j] += Lang({lab})
+        G.N |= set(q["nodes"])
+        K1 = G.closure_scc_based()
+        K2 = G.closure_reference()
+        b = Lang.chart()
+        for i, lab in q.get("b", []):
+            b[i] = Lang({lab})
+        sl, sr_ = G.solve_left(b), G.solve_right(b)
+        f = lambda ch: {(str(k) if not isinstance(k, tuple) else f"{k[0]},{k[1]}"): sorted(v.score) for k, v in ch.items() if v.score}
+        return {"scc": f(K1), "ref": f(K2), "solve_left": f(sl), "solve_right": f(sr_)}
     if op == "closure":
         from genlm.grammar.linear import WeightedGraph
 
